@@ -27,7 +27,7 @@ Definition repaired_except_pinned : behaviour := mkBeh false false false false t
 
 (** THE SWITCH: which behaviour the library under test has; the extracted model driver replays this one.
     Set to [repaired_except_pinned] once the proposed patches (notes/proposed-fixes/C17-*.patch) have landed. *)
-Definition current_behaviour : behaviour := code_today.
+Definition current_behaviour : behaviour := repaired_except_pinned.
 
 (** the switches that a patch can turn off *)
 Definition slices_repaired (B : behaviour) : Prop :=
